@@ -129,11 +129,23 @@ def _safe_impl(check, case):
                       "trace": traceback.format_exc()[-1500:]}
 
 
+class _Crashed(object):
+    """Marks 'the implementation runner itself crashed' (≠ a legitimate None result)."""
+    def __repr__(self):
+        return "<implementation runner crashed>"
+
+    def __bool__(self):
+        return False
+
+
+CRASHED = _Crashed()
+
+
 def evaluate(check, case):
     """impl + oracle on one case → (impl_res, failures)"""
     res, crash = _safe_impl(check, case)
     if crash is not None:
-        return None, [crash]
+        return CRASHED, [crash]
     try:
         fails = list(check.oracle(case, res) or [])
     except Exception as e:
@@ -227,8 +239,8 @@ def run(check, tier, seed):
             for f in fails:
                 oracle_fail.append((idx, f))
             try:
-                check.stats(case, res, counters)
-                k = check.nontrivial_key(case, res)
+                check.stats(case, None if res is CRASHED else res, counters)
+                k = check.nontrivial_key(case, None if res is CRASHED else res)
                 if k is not None:
                     nontrivial.add(hashlib.sha1(str(k).encode("utf-8", "replace")).digest())
             except Exception:
@@ -239,7 +251,7 @@ def run(check, tier, seed):
         reqs = []
         req_idx = []
         for idx, (src, case) in enumerate(all_cases):
-            if results[idx] is None:
+            if results[idx] is CRASHED:
                 continue
             r = check.model_request(case)
             if r is not None:
@@ -317,7 +329,7 @@ def run(check, tier, seed):
                 small = case
             res, fails = evaluate(check, small)
             payload = {"property": pid, "seed": seed, "tier": tier, "source": src, "case": small,
-                       "implementation_returned": res, "failures": fails, "broken": broken}
+                       "implementation_returned": (None if res is CRASHED else res), "failures": fails, "broken": broken}
             path = write_replay(pid, seed, k, payload)
             k += 1
             print("VIOLATION property=%s replay=%s" % (pid, path))
@@ -393,7 +405,7 @@ def replay(check, path):
         print("case:", json.dumps(case)[:2000])
         print("implementation:", json.dumps(res, default=str)[:2000])
         req = check.model_request(case)
-        if req is not None and res is not None:
+        if req is not None and res is not CRASHED:
             driver = check.driver or "Verif/%s/Driver.lean" % check.pid
             try:
                 ans = leanrun.run_driver(driver, [req])[0]
